@@ -70,12 +70,30 @@ def _conc_slice(s, n):
   return slice(cv(s.start), cv(s.stop), cv(s.step)).indices(n)
 
 
+_INT_DTYPES = {}
+
+
+def _wrap_store(v, wrap):
+  """C-style wrap-around of an integer stored into a narrow integer array."""
+  if wrap is None:
+    return v
+  lo, mod = wrap
+  if isinstance(v, list):
+    return [_wrap_store(x, wrap) for x in v]
+  if isinstance(v, symex.SymInt):
+    return (v - lo) % mod + lo
+  if isinstance(v, bool) or not isinstance(v, int):
+    return v
+  return (v - lo) % mod + lo
+
+
 class Arr(object):
   """N-d array as nested lists (row major)."""
 
-  def __init__(self, data):
+  def __init__(self, data, wrap=None):
     self.data = data
     self.shape = _shape_of(data)
+    self.wrap = wrap  # (lowest value, modulus) for narrow integer dtypes
 
   @property
   def ndim(self):
@@ -182,7 +200,7 @@ class Arr(object):
         self.data[_idx(i, self.shape[0])] = value
       return
     key = self._norm_key(key)
-    value = _to_data(value)
+    value = _wrap_store(_to_data(value), self.wrap)
     self._set(self.data, key, self.shape, value)
 
   def _set(self, d, key, shape, value):
@@ -314,6 +332,10 @@ class Arr(object):
 ndarray = Arr
 
 
+_INT_DTYPES.update({_np.uint8: (0, 256), _np.int8: (-128, 256),
+                    _np.uint16: (0, 65536), _np.int16: (-32768, 65536)})
+
+
 def _full(shape, v):
   if isinstance(shape, (int, symex.SymInt)):
     shape = (shape,)
@@ -333,6 +355,10 @@ def _full(shape, v):
 def zeros(shape, dtype=None):
   if dtype in (bool, bool_):
     return _full(shape, False)
+  if dtype in _INT_DTYPES:
+    a = _full(shape, 0)
+    a.wrap = _INT_DTYPES[dtype]
+    return a
   return _full(shape, 0 if dtype in (int32, int64, int, uint8, int8, int16,
                                      uint16, uint32) else 0.0)
 
